@@ -480,6 +480,17 @@ var builtinSmtFuns = map[string]*SmtFun{
 	"rank":  {Name: "rank", Args: []string{"Val"}, Ret: "Int"},
 	"isnan": {Name: "isnan", Args: []string{"Val"}, Ret: "Bool"},
 	"wfval": {Name: "wfval", Args: []string{"Val"}, Ret: "Bool"},
+	"norm":      {Name: "norm", Args: []string{"Val"}, Ret: "Val"},
+	"normable":  {Name: "normable", Args: []string{"Val"}, Ret: "Bool"},
+	"supported": {Name: "supported", Args: []string{"Val"}, Ret: "Bool"},
+	"castRank":  {Name: "castRank", Args: []string{"String"}, Ret: "Int"},
+	"unixnano":  {Name: "unixnano", Args: []string{"Int"}, Ret: "Int"},
+	"VInt":      {Name: "VInt", Args: []string{"Int"}, Ret: "Val"},
+	"VUint":     {Name: "VUint", Args: []string{"Int"}, Ret: "Val"},
+	"VFloat":    {Name: "VFloat", Args: []string{"F64"}, Ret: "Val"},
+	"VStr":      {Name: "VStr", Args: []string{"String"}, Ret: "Val"},
+	"isVStr":    {Name: "(_ is VStr)", Args: []string{"Val"}, Ret: "Bool"},
+	"vstr":      {Name: "vstr", Args: []string{"Val"}, Ret: "String"},
 }
 
 func (c *evalCtx) call(x *ast.CallExpr) tval {
